@@ -648,6 +648,11 @@ def child_history(ops: List[Any], fixed: List[Tuple[str, Any]], reference: List[
                     conv.register_structure_hook(int, lambda v, _: int(v) + 1000)
                 elif op[2] == "forbid-extra":
                     conv.forbid_extra_keys = True
+                    # cattrs reads the switch when it builds a per-class function and rebuilds those whenever its dispatch
+                    # cache is dropped (any registration, the first mapping type it meets...): a registration right away
+                    # makes the switch take effect now - not at some later step, where it would look like the effect of
+                    # whatever else happened in that step
+                    conv.register_structure_hook(type("_Flush", (), {}), lambda v, _: v)
                 else:
                     conv.register_unstructure_hook(t.Position, lambda p_: {"line": -1, "character": -1})
             except Exception:
